@@ -331,6 +331,21 @@ Theorem C09_divided_diffs_order1 : forall (A : Arith) (F : OField A) (knat : nat
   div (mul (ofZ (Z.of_nat order)) (sub c1 c0)) (sub (knat (j + order + 1)%nat) (knat (j + 1)%nat)).
 Proof. intros A F knat order j c0 c1 Hd Ho. split; [apply divided_diffs_order1|apply (stencil1_apply F); assumption]. Qed.
 
+From PS Require C09_Stencil.
+(* ... and for EVERY penalty order p: the stencil divided_diffs builds for row j, applied to c_j .. c_{j+p}, is the p-th iterated
+   divided difference  D^p c (j) = (D^{p-1} c (j+1) - D^{p-1} c (j)) / ((t_{j+order+1} - t_{j+p}) / (order - p + 1)),  D^0 c = c
+   (the coefficient recursion of the p-th derivative of a spline, de Boor X.(15)); any field, no assumption on the knots ... *)
+Theorem C09_penalty_stencil_is_iterated_difference : forall (A : Arith) (F : OField A) (knat : nat -> T A) (order p : nat) (c : nat -> T A) (j : nat),
+  dot (divided_diffs knat order p j) (map c (seq j (S p))) = C09_Stencil.dcoef knat order p c j.
+Proof. intros A F knat order p c j. exact (C09_Stencil.stencil_is_iterated_difference F knat order p c j). Qed.
+
+(* ... hence row `row` of calc_penalty's finite-difference matrix applied to a whole coefficient vector is D^p c (row) *)
+Theorem C09_penalty_row_is_iterated_difference : forall (A : Arith) (F : OField A) (knat : nat -> T A) (order p nspl : nat) (c : nat -> T A) (row : nat),
+  (row + p < nspl)%nat ->
+  dot (nth row (finitediff knat order p nspl) []) (map c (seq 0 nspl)) = C09_Stencil.dcoef knat order p c row.
+Proof. intros A F knat order p nspl c row H. exact (C09_Stencil.finitediff_row_is_iterated_difference F knat order p nspl c row H). Qed.
+
+(* (both statements are unconditional identities: there is no hypothesis whose satisfiability would need an example) *)
 Print Assumptions C09_normal_eq_minimise.
 Print Assumptions C09_fit_minimises.
 Print Assumptions C09_penalty_is_DtD.
@@ -350,3 +365,5 @@ Print Assumptions C09_basis_is_cox_de_boor.
 Print Assumptions C09_basis_side.
 Print Assumptions C09_derivative_is_difference_spline.
 Print Assumptions C09_divided_diffs_order1.
+Print Assumptions C09_penalty_stencil_is_iterated_difference.
+Print Assumptions C09_penalty_row_is_iterated_difference.
